@@ -19,7 +19,7 @@
  *   ops=0,1,2,8,9,10,3,11   opcodes          fins=01   masks=01
  *   lens=0,1,125,126,O      payload lengths; O = header-only frame declaring 10MiB+1,
  *                           M = header-only frame declaring 2^63
- *   extras=1     add boundary kinds the reduced quick alphabet leaves out (125-byte payloads, pong, 0xB)
+ *   extras=1     add boundary kinds the reduced quick alphabet leaves out (125-byte payloads, pong, opcodes 3 and 0xB)
  *   longmax=N    at most N frames with a payload >= 4000 bytes per sequence (default: no limit);
  *                long frames are expensive here (every buffer beyond 128 KiB is mmap'ed)
  *   cutpos=edge|all   candidate cut positions: every header byte + first/last payload
@@ -90,7 +90,7 @@ static void init(void)
 		/* boundary lengths and opcodes that the quick cross product leaves out */
 		static const struct kind ex[] = {
 			{1, 1, 1, 125}, {2, 1, 0, 125}, {9, 1, 1, 125}, {0, 0, 0, 125},
-			{10, 1, 1, 1}, {10, 1, 0, 0}, {10, 0, 1, 1}, {11, 1, 1, 0}, {11, 0, 0, 1},
+			{10, 1, 1, 1}, {10, 1, 0, 0}, {10, 0, 1, 1}, {11, 1, 1, 0}, {11, 0, 0, 1}, {3, 1, 1, 1}, {3, 0, 0, 0},
 		};
 		int j;
 		for (i = 0; i < (int)(sizeof ex / sizeof ex[0]); i++) {
@@ -369,13 +369,13 @@ static void run_stream(const struct kind *const *ks, int nf, struct stream *st, 
 static void body_big(void)
 {
 	/* a frame of exactly the documented limit must be accepted (limit + 1 is in the main
-	 * alphabet as 'O'); a 10 MiB execution costs seconds here, so only 2 x 2 cases */
+	 * alphabet as 'O'); a 10 MiB execution costs ~20 s here, so only two cases */
 	static struct kind big[2] = { {1, 1, 1, (long)WS_LIMIT}, {2, 1, 0, (long)WS_LIMIT} };
 	static struct kind tail = {1, 1, 1, 1};
 	const struct kind *ks[2]; struct stream st;
-	int a = mc_choose(2, 0, "big"), b = mc_choose(2, 0, "tail"), nf = 1;
+	int a = mc_choose(2, 0, "big"), nf = 1;       /* 0: masked text alone; 1: unmasked binary + a small frame */
 	ks[0] = &big[a];
-	if (b) { ks[1] = &tail; nf = 2; }
+	if (a) { ks[1] = &tail; nf = 2; }
 	describe(ks[0]); if (nf == 2) describe(ks[1]);
 	build_stream(&st, ks, nf);
 	run_stream(ks, nf, &st, 2, a ? 3 : -1);        /* the unmasked one with a cut inside its header */
